@@ -197,6 +197,26 @@ fn c14_ln_write_fails(dir: &str) -> bool {
     r.is_err() && poisoned
 }
 
+/// C12: an overlay whose parent was never committed is refused - and the refusal must leave the
+/// root (and everything else) untouched. Parent P has no writes, so the child's base root equals the
+/// current root and only the parent-marker check can reject it.
+fn c12_overlay_parent_rejected(dir: &str, nonblocking: bool) -> bool {
+    let _ = std::fs::remove_dir_all(dir);
+    let db: Db = Nomt::open(opts(dir, true)).unwrap();
+    commit(&db, vec![(key(1), Some(vec![1]))]);
+    let root = db.root();
+    let p = db.begin_session(SessionParams::default()).finish(vec![(key(1), KeyReadWrite::Read(Some(vec![1])))]).unwrap().into_overlay();
+    let c = {
+        let s = db.begin_session(SessionParams::default().overlay([&p]).unwrap());
+        s.finish(vec![(key(7), KeyReadWrite::Write(Some(vec![7])))]).unwrap().into_overlay()
+    };
+    let rejected = if nonblocking { c.try_commit_nonblocking(&db).is_err() } else { c.commit(&db).is_err() };
+    let root_unchanged = db.root() == root;
+    let k7 = db.read(key(7)).unwrap();
+    println!("child of uncommitted parent rejected={} root_unchanged={} k7={:?}", rejected, root_unchanged, k7);
+    rejected && root_unchanged && k7 == None
+}
+
 fn main() {
     let a: Vec<String> = std::env::args().collect();
     let (name, dir) = (a[1].as_str(), a[2].as_str());
@@ -204,6 +224,8 @@ fn main() {
         "c12_session_try_commit" => c12_session_try_commit(dir),
         "c12_overlay_commit" => c12_overlay_commit(dir, false),
         "c12_overlay_try_commit" => c12_overlay_commit(dir, true),
+        "c12_overlay_parent_rejected" => c12_overlay_parent_rejected(dir, false),
+        "c12_overlay_parent_rejected_nb" => c12_overlay_parent_rejected(dir, true),
         "c14_ht_write_fails" => c14_ht_write_fails(dir),
         "c14_ln_write_fails" => c14_ln_write_fails(dir),
         "c04_crash_post_meta" => c04_crash_post_meta(dir),
